@@ -11,6 +11,7 @@ package rules
 
 import (
 	"context"
+	"encoding/json"
 	"errors"
 	"fmt"
 	"net/http"
@@ -844,3 +845,345 @@ func c18RTest(t *testing.T, blob bool, seedOff uint64) {
 
 func TestVerifC18HTTPReal(t *testing.T) { c18RTest(t, false, 515151) }
 func TestVerifC18BlobReal(t *testing.T) { c18RTest(t, true, 616161) }
+
+// ---- event-driven providers with COMPETING rule sets -------------------------------------------------------
+//
+// As httpreal/blobreal, for the providers that look at a source only when an event for it arrives: a rule set that
+// was refused because another source held its path is — by the statement — to be loaded once that source is gone.
+// Observed: calls with the real answers and what the repository holds after every event.
+
+func c18KCompCorpus() []kubernetes.VerifKCase {
+	var cases []kubernetes.VerifKCase
+
+	// the witness of C18_k8s_accept_no_retry_witness and two variants, as JSON in the driver's input format
+	for _, js := range []string{
+		// A loaded; B (same path) refused; A deleted; no further event for B
+		`{"nn":2,"rej":[],"undel":[],"hist":[{"t":"A","obj":{"name":0,"uid":0,"cls":true,"gen":1,"cid":1}},
+		  {"t":"A","obj":{"name":1,"uid":1,"cls":true,"gen":1,"cid":5}},{"t":"D","obj":{"name":0,"uid":0,"cls":true,"gen":1,"cid":1}}]}`,
+		// ... and a relist that delivers B again with the same generation
+		`{"nn":2,"rej":[],"undel":[],"hist":[{"t":"A","obj":{"name":0,"uid":0,"cls":true,"gen":1,"cid":1}},
+		  {"t":"A","obj":{"name":1,"uid":1,"cls":true,"gen":1,"cid":5}},{"t":"D","obj":{"name":0,"uid":0,"cls":true,"gen":1,"cid":1}},
+		  {"t":"R","list":[{"name":1,"uid":1,"cls":true,"gen":1,"cid":5}]}]}`,
+		// A changes away from the path instead; then B gets a new generation and is loaded
+		`{"nn":2,"rej":[],"undel":[],"hist":[{"t":"A","obj":{"name":0,"uid":0,"cls":true,"gen":1,"cid":1}},
+		  {"t":"A","obj":{"name":1,"uid":1,"cls":true,"gen":1,"cid":5}},{"t":"M","obj":{"name":0,"uid":0,"cls":true,"gen":2,"cid":2}},
+		  {"t":"M","obj":{"name":1,"uid":1,"cls":true,"gen":1,"cid":5}},{"t":"M","obj":{"name":1,"uid":1,"cls":true,"gen":2,"cid":5}}]}`,
+	} {
+		var c kubernetes.VerifKCase
+		if err := json.Unmarshal([]byte(js), &c); err != nil {
+			panic(err)
+		}
+
+		cases = append(cases, c)
+	}
+
+	return cases
+}
+
+func TestVerifC18K8sComp(t *testing.T) {
+	w := vf.NewWriter()
+	defer w.Close()
+
+	root := vf.NewRand(vf.Seed() + 838383)
+	n := vf.N(120)
+
+	var (
+		cases   []kubernetes.VerifKCase
+		idxs    []int
+		streams []string
+	)
+
+	idx := 0
+	add := func(stream string, c kubernetes.VerifKCase) {
+		c.Undel = []int{}
+
+		if vf.Want(idx) {
+			cases, idxs, streams = append(cases, c), append(idxs, idx), append(streams, stream)
+		}
+
+		idx++
+	}
+
+	for _, c := range c18KCompCorpus() {
+		add("corpus", c)
+	}
+
+	for i := 0; i < n; i++ {
+		add("generated", kubernetes.VerifKGen(root.Fork(uint64(i)), i%10 == 0))
+	}
+
+	steps, snaps, errs := kubernetes.VerifKRunAll(cases, func() kubernetes.VerifKOpts {
+		factory, err := NewRuleFactory(c18Catalogue{}, &config.Configuration{}, config.DecisionMode, zerolog.Nop())
+		if err != nil {
+			panic(err)
+		}
+
+		repo := newRepository(factory).(*repository) //nolint:forcetypeassert
+
+		return kubernetes.VerifKOpts{Next: NewRuleSetProcessor(repo, factory), Snapshot: c18KRepoSnapshot(repo), Compete: true}
+	})
+
+	for j, c := range cases {
+		if errs[j] != nil {
+			t.Fatalf("case %d: %v", idxs[j], errs[j])
+		}
+
+		active := make([]string, len(snaps[j]))
+		for i, s := range snaps[j] {
+			active[i] = c18OptInts(s)
+		}
+
+		tags, csteps := kubernetes.VerifKTags(c, steps[j])
+		skip := 0
+
+		for _, e := range c.Hist {
+			if e.Initial {
+				skip++
+			}
+		}
+
+		if skip > 0 {
+			skip--
+		}
+
+		for _, s := range steps[j] {
+			for _, cl := range s.Calls {
+				if !cl.Ok && cl.Kind != "D" {
+					tags = append(tags, "refused")
+
+					break
+				}
+			}
+		}
+
+		w.Put(vf.Obs{
+			I: idxs[j], Stream: streams[j], In: c, Out: map[string]any{"steps": steps[j], "repository": snaps[j]},
+			Coq:        fmt.Sprintf("(k8q %s %d [%s])", kubernetes.VerifKCoq(c, steps[j]), skip, strings.Join(active, "; ")),
+			Nontrivial: c18.Nontrivial(csteps), Tags: tags,
+		})
+	}
+}
+
+// file system: files holding contents of the four conflict classes; every change is followed by its notification;
+// now and then a file is looked at again without a change
+
+type c18FCEvent struct {
+	F  int    `json:"f"`
+	O  string `json:"o"` // valid, empty, invalid, absent, look (a notification without a change)
+	Cid int   `json:"cid,omitempty"`
+}
+
+type c18FCCase struct {
+	N    int          `json:"n"`
+	Rej  []int        `json:"rej"`
+	Hist []c18FCEvent `json:"hist"`
+}
+
+func c18FCGen(r *vf.Rand) c18FCCase {
+	c := c18FCCase{N: 2 + r.Intn(2), Rej: []int{}}
+
+	for cid := 1; cid <= 8; cid++ {
+		if r.Chance(10) {
+			c.Rej = append(c.Rej, cid)
+		}
+	}
+
+	n := 2 + r.Intn(16)
+
+	for i := 0; i < n; i++ {
+		e := c18FCEvent{F: r.Intn(c.N)}
+
+		switch x := r.Intn(100); {
+		case x < 50:
+			e.O, e.Cid = "valid", 1+r.Intn(8)
+		case x < 58:
+			e.O = "empty"
+		case x < 66:
+			e.O = "invalid"
+		case x < 84:
+			e.O = "absent"
+		default:
+			e.O = "look"
+		}
+
+		c.Hist = append(c.Hist, e)
+	}
+
+	return c
+}
+
+func c18FCCorpus() []c18FCCase {
+	v := func(f, c int) c18FCEvent { return c18FCEvent{F: f, O: "valid", Cid: c} }
+
+	return []c18FCCase{
+		// file 1 is refused while file 0 holds the path; file 0 is removed; no event for file 1; then it is looked at again
+		{N: 2, Rej: []int{}, Hist: []c18FCEvent{v(0, 1), v(1, 5), {F: 0, O: "absent"}, {F: 1, O: "look"}}},
+		{N: 2, Rej: []int{}, Hist: []c18FCEvent{v(0, 1), v(1, 1), v(0, 2), {F: 0, O: "look"}, {F: 1, O: "look"}}},
+	}
+}
+
+func c18FCRun(t *testing.T, base string, idx int, c c18FCCase) []c18RStep {
+	dir := filepath.Join(base, fmt.Sprintf("fc%d", idx))
+	if err := os.Mkdir(dir, 0o700); err != nil {
+		t.Fatal(err)
+	}
+
+	defer os.RemoveAll(dir)
+
+	name := func(f int) string { return filepath.Join(dir, fmt.Sprintf("f%d.yaml", f)) }
+	rej := map[int]bool{}
+
+	for _, r := range c.Rej {
+		rej[r] = true
+	}
+
+	srcs := make([]string, c.N)
+	for f := range srcs {
+		srcs[f] = "file_system:" + name(f)
+	}
+
+	rec, repo := c18RNewReal(c.Rej, func(src string) (bool, int, int, bool) {
+		for f, x := range srcs {
+			if x == src {
+				return false, 0, f, true
+			}
+		}
+
+		return false, 0, 0, false
+	})
+
+	prov := filesystem.VerifNewProvider(dir, rec)
+
+	var steps []c18RStep
+
+	observe := func() {
+		st := c18RStep{Calls: rec.Take(), Known: make([]int, c.N), Repo: c18RRepo(repo, srcs)}
+		if st.Calls == nil {
+			st.Calls = []c18.Call{}
+		}
+
+		for f := 0; f < c.N; f++ {
+			st.Known[f] = -1
+
+			if h, ok := prov.VerifStoredHash(name(f)); ok {
+				st.Known[f] = rec.CidOfHash(h)
+			}
+		}
+
+		steps = append(steps, st)
+	}
+
+	for _, e := range c.Hist {
+		op := fsnotify.Write
+
+		switch e.O {
+		case "valid", "empty", "invalid":
+			if err := os.WriteFile(name(e.F), c18RBody(c18RPoll{O: e.O, Cid: e.Cid}, rej), 0o600); err != nil {
+				t.Fatal(err)
+			}
+		case "absent":
+			os.Remove(name(e.F))
+
+			op = fsnotify.Remove
+		}
+
+		if e.O != "look" {
+			observe() // the change itself: nothing happens
+		}
+
+		prov.VerifChanged(fsnotify.Event{Name: name(e.F), Op: op}) //nolint:errcheck
+		observe()
+	}
+
+	return steps
+}
+
+func c18FCCoq(c c18FCCase, steps []c18RStep) string {
+	var evs []string
+
+	for _, e := range c.Hist {
+		w := ""
+
+		switch e.O {
+		case "valid":
+			w = fmt.Sprintf("(CV %d)", e.Cid)
+		case "empty":
+			w = "CE"
+		case "invalid":
+			w = "CI"
+		case "absent":
+			w = "CA"
+		}
+
+		if w != "" {
+			evs = append(evs, fmt.Sprintf("eS %d %s", e.F, w))
+		}
+
+		if e.O == "absent" {
+			evs = append(evs, fmt.Sprintf("eN %d [oR]", e.F))
+		} else {
+			evs = append(evs, fmt.Sprintf("eN %d [oW]", e.F))
+		}
+	}
+
+	obs := make([]string, len(steps))
+	for i, s := range steps {
+		obs[i] = fmt.Sprintf("(rs %s %s %s)", vf.CoqListOf(s.Calls, c18.Call.Coq), c18OptInts(s.Known), c18OptInts(s.Repo))
+	}
+
+	return fmt.Sprintf("(fcc %d %s [%s] [%s])", c.N, c18.CoqInts(c.Rej), strings.Join(evs, "; "), strings.Join(obs, "; "))
+}
+
+func TestVerifC18FsComp(t *testing.T) {
+	w := vf.NewWriter()
+	defer w.Close()
+
+	base := t.TempDir()
+	root := vf.NewRand(vf.Seed() + 949494)
+	n := vf.N(150)
+	idx := 0
+
+	emit := func(stream string, c c18FCCase) {
+		if vf.Want(idx) {
+			steps := c18FCRun(t, base, idx, c)
+			tags := map[string]bool{}
+			cs := make([]c18.Step, len(steps))
+
+			for _, e := range c.Hist {
+				tags["ev:"+e.O] = true
+			}
+
+			for i, s := range steps {
+				cs[i] = c18.Step{Calls: s.Calls}
+
+				for _, cl := range s.Calls {
+					tags[fmt.Sprintf("call:%s:%v", cl.Kind, cl.Ok)] = true
+
+					if !cl.Ok && cl.Kind != "D" {
+						tags["refused"] = true
+					}
+				}
+			}
+
+			tl := make([]string, 0, len(tags))
+			for k := range tags {
+				tl = append(tl, k)
+			}
+
+			w.Put(vf.Obs{
+				I: idx, Stream: stream, In: c, Out: steps, Coq: c18FCCoq(c, steps),
+				Nontrivial: c18.Nontrivial(cs), Tags: tl,
+			})
+		}
+
+		idx++
+	}
+
+	for _, c := range c18FCCorpus() {
+		emit("corpus", c)
+	}
+
+	for i := 0; i < n; i++ {
+		emit("generated", c18FCGen(root.Fork(uint64(i))))
+	}
+}
